@@ -63,6 +63,18 @@ let rec dump (b : Buffer.t) (n : tnode) : unit =
 let show (l : tnode list) : string =
   let b = Buffer.create 256 in List.iter (dump b) l; Buffer.contents b
 
+let rec dump_ix (b : Buffer.t) (n : ixn) : unit =
+  match n with
+  | IxN (i, na, ch) ->
+      let k = int_of_n i and a = int_of_nat na in
+      if a = 0 && ch = [] then Buffer.add_string b (Printf.sprintf " %d" k)
+      else begin
+        Buffer.add_string b (Printf.sprintf " (%d:" k);
+        for j = 1 to a do Buffer.add_string b (Printf.sprintf (if j = 1 then "%d" else ",%d") (k + j)) done;
+        List.iter (dump_ix b) ch;
+        Buffer.add_string b " )"
+      end
+
 let resolver_of (t : string) : (n list * n list) list option =
   if t = "-" then None else
   match String.split_on_char '|' t with
@@ -84,6 +96,45 @@ let () =
                (match run_target t m res evs with
                 | Some l -> print_string (id ^ " ok" ^ show l ^ "\n")
                 | None -> print_string (id ^ " err\n"))
+           | "i" ->
+               (match run_indexes m res (fresh_start m) evs with
+                | Some (tr, ix) ->
+                    let b = Buffer.create 256 in
+                    (* elements print as "(i:" even without attributes and children: use the tree for the node kinds *)
+                    let rec go (ts : tnode list) (xs : ixn list) =
+                      match ts, xs with
+                      | TElem (_, _, _, tch) :: tr', IxN (i, na, xch) :: xr' ->
+                          let k = int_of_n i and a = int_of_nat na in
+                          Buffer.add_string b (Printf.sprintf " (%d:" k);
+                          for j = 1 to a do Buffer.add_string b (Printf.sprintf (if j = 1 then "%d" else ",%d") (k + j)) done;
+                          go tch xch; Buffer.add_string b " )"; go tr' xr'
+                      | _ :: tr', IxN (i, _, _) :: xr' -> Buffer.add_string b (Printf.sprintf " %d" (int_of_n i)); go tr' xr'
+                      | [], [] -> ()
+                      | _ -> Buffer.add_string b " SHAPE-MISMATCH" in
+                    go tr ix;
+                    print_string (id ^ " ok" ^ Buffer.contents b ^ "\n")
+                | None -> print_string (id ^ " err\n"))
+           | "J" ->
+               (* the specification's indexes: pre-order numbering of the denoted tree *)
+               let (items, rest) = items_of evs in
+               if rest <> [] then failwith "not well nested";
+               if top_ok STREE m items then begin
+                 let tr = den_t STREE m res items in
+                 let (ix, _) = number_list (fresh_start m) tr in
+                 let b = Buffer.create 256 in
+                 let rec go (ts : tnode list) (xs : ixn list) =
+                   match ts, xs with
+                   | TElem (_, _, _, tch) :: tr', IxN (i, na, xch) :: xr' ->
+                       let k = int_of_n i and a = int_of_nat na in
+                       Buffer.add_string b (Printf.sprintf " (%d:" k);
+                       for j = 1 to a do Buffer.add_string b (Printf.sprintf (if j = 1 then "%d" else ",%d") (k + j)) done;
+                       go tch xch; Buffer.add_string b " )"; go tr' xr'
+                   | _ :: tr', IxN (i, _, _) :: xr' -> Buffer.add_string b (Printf.sprintf " %d" (int_of_n i)); go tr' xr'
+                   | [], [] -> ()
+                   | _ -> Buffer.add_string b " SHAPE-MISMATCH" in
+                 go tr ix;
+                 print_string (id ^ " ok" ^ Buffer.contents b ^ "\n")
+               end else print_string (id ^ " none\n")
            | "X" | "S" ->
                let t = if tg = "X" then XDOM else STREE in
                let (items, rest) = items_of evs in
